@@ -1,12 +1,12 @@
 package main
 
 import (
-	"sync"
 	"bytes"
 	stdgzip "compress/gzip"
 	"fmt"
 	"io"
 	"strings"
+	"sync"
 	"time"
 
 	"github.com/andybalholm/brotli"
